@@ -133,10 +133,10 @@ def task_batch(items):
 
 
 def programs(tier):
-    rich = tier == 'thorough'
+    rich = True           # the quick tier uses what used to be the thorough alphabet
     call_fields = [(R.F_PATH, (b'o', b'/a')), (R.F_INTERFACE, (b's', b'a.b')), (R.F_MEMBER, (b's', b'M'))]
     # bodies through the generic ctor with append_basic, and through append_fixed_array
-    for body in (gen.bodies(3, True, 2) if rich else gen.bodies(2, True, 2)):
+    for body in (gen.bodies(3, True, 3) if tier == 'thorough' else gen.bodies(3, True, 2)):
         yield ('g', 'i', (R.MT_CALL, 0, 7, list(call_fields), body))
         if any(v[0][:1] == b'a' and len(v[0]) == 2 and v[0][1:2] in b'ybnqiuxtd' for v in body):
             yield ('g', 'f', (R.MT_CALL, 0, 7, list(call_fields), body))
@@ -235,7 +235,7 @@ def run(ctx):
         'distinct_nontrivial': ctx.clause_hits.get('byteswap', 0),
         'rule': 'construction programs = (all type trees to depth %d x values x [X],[y,X] bodies, via append_basic and append_fixed_array) + (4 message types x subsets of 8 header setters x flags x empty/non-empty body) '
                 '+ specific constructors + values of length 1..17 in every string field; all programs are distinct; non-trivial = programs that completed ALL clauses '
-                '(reference decode, parse-back, byte-identical re-marshal, other-byte-order conversion, copy)' % (3 if ctx.tier == 'thorough' else 2),
+                '(reference decode, parse-back, byte-identical re-marshal, other-byte-order conversion, copy)' % (3,),
         'tasks': len(tasks), 'tasks_done': done,
     })
     ctx.samples = ['g i T=1 F=0 S=7 path=2f61 iface=612e62 member=4d errname- dest- sender- rserial=0 sig=ya{sv} cinst- body=[y:1,a{sv}[{s:6b,v:b=b:1}]]',
